@@ -593,6 +593,50 @@ def F30():
 
 
 @case
+def F31():
+    # list(): a member without a time stamp shows its predecessor's
+    d = tmp(); p = os.path.join(d, "a.7z")
+    with py7zr.SevenZipFile(p, "w") as z:
+        z.writestr(b"one", "one.txt"); z.writestr(b"two", "two.txt")
+        del z.header.files_info.files[1]["lastwritetime"]
+    with py7zr.SevenZipFile(p) as z:
+        times = [(f.filename, f.creationtime) for f in z.list()]
+        stored = [f.lastwritetime for f in z.files]
+    return None if times[1][1] is None else f"member two.txt has no stored time stamp ({stored[1]}) but list() reports {times[1][1]} (that of one.txt)"
+
+
+@case
+def F32():
+    # slow callbacks: close() gives up after 1 s, raises InternalError, the rest of the events arrive after close()
+    import time
+    d = tmp(); p = os.path.join(d, "a.7z")
+    with py7zr.SevenZipFile(p, "w") as z:
+        for i in range(8):
+            z.writestr(b"x" * 100, f"f{i}.txt")
+    from py7zr.callbacks import ExtractCallback
+    class CB(ExtractCallback):
+        def __init__(self): self.ev = []
+        def report_start_preparation(self): self.ev.append(time.time())
+        def report_start(self, a, b): self.ev.append(time.time())
+        def report_update(self, n): pass
+        def report_end(self, a, b):
+            time.sleep(0.3); self.ev.append(time.time())
+        def report_warning(self, m): pass
+        def report_postprocess(self): self.ev.append(time.time())
+    cb = CB()
+    z = py7zr.SevenZipFile(p)
+    z.extractall(os.path.join(d, "out"), callback=cb)
+    try:
+        z.close(); r = "returned"
+    except Exception as e:
+        r = f"raised {type(e).__name__}"
+    t_close = time.time()
+    time.sleep(3)
+    late = [e for e in cb.ev if e > t_close]
+    return None if (r == "returned" and not late) else f"close() {r}; {len(late)} of {len(cb.ev)} events delivered after close()"
+
+
+@case
 def F14b():
     # progress events of worker PROCESSES never reach the reporter
     d = tmp(); p = os.path.join(d, "a.7z")
